@@ -78,7 +78,6 @@ const c17SpecDup = `{"openapi":"3.0.3","info":{"title":"d","version":"1"},"paths
 // non-default value. The base configuration is the first entry.
 func c17Variants() []genCall {
 	other := `{"openapi":"3.0.3","info":{"title":"o","version":"1"},"paths":{},"components":{"schemas":{"Ext":{"type":"string"}}}}`
-	_ = other
 	base := func() codegen.Configuration {
 		return codegen.Configuration{PackageName: "gen", Generate: codegen.GenerateOptions{EchoServer: true, Client: true, Models: true, EmbeddedSpec: true},
 			ImportMapping: map[string]string{"other.yaml": "example.com/other"}}
@@ -133,6 +132,25 @@ func c17Variants() []genCall {
 	add("same $refs, other Go names (x-go-name)", c17SpecRenamed, nil)
 	add("same $refs, other Go names, fails late", c17SpecRenamedFailsLate, nil)
 	add("duplicate type names (fails after the prologue)", c17SpecDup, func(c *codegen.Configuration) { c.ImportMapping = nil })
+	// documents without operations (types only, or every operation filtered out), with imports of their own, unformatted
+	typesOnly := func(c *codegen.Configuration) {
+		c.Generate = codegen.GenerateOptions{Models: true}
+		c.OutputOptions.SkipPrune = true
+		c.ImportMapping = nil
+	}
+	add("types only, x-go-type-import", `{"openapi":"3.0.3","info":{"title":"t","version":"1"},"paths":{},"components":{"schemas":{"Price":{"type":"string","x-go-type":"decimal.Decimal","x-go-type-import":{"path":"github.com/shopspring/decimal"}},"When":{"type":"string","format":"date-time"}}}}`, typesOnly)
+	add("types only, x-go-type-import, skip-fmt", `{"openapi":"3.0.3","info":{"title":"t","version":"1"},"paths":{},"components":{"schemas":{"Id":{"type":"string","x-go-type":"ulid.ULID","x-go-type-import":{"path":"github.com/oklog/ulid/v2","name":"ulid"}}}}}`, func(c *codegen.Configuration) {
+		typesOnly(c)
+		c.OutputOptions.SkipFmt = true
+	})
+	add("types only, skip-fmt", other, func(c *codegen.Configuration) {
+		typesOnly(c)
+		c.OutputOptions.SkipFmt = true
+	})
+	add("every operation filtered out, skip-fmt", c17SpecA, func(c *codegen.Configuration) {
+		c.OutputOptions.IncludeTags = []string{"no-such-tag"}
+		c.OutputOptions.SkipFmt = true
+	})
 	add("disable-type-aliases-for-type=array", c17SpecA, func(c *codegen.Configuration) { c.OutputOptions.DisableTypeAliasesForType = []string{"array"} })
 	return out
 }
